@@ -1,5 +1,126 @@
 import QipVerif.Util.Proto
-/-! Driver stub (to be filled in by the owner of this model). -/
-open QipVerif.Proto
-def step (_line : String) : String := "bad-op"
+import QipVerif.Util.RatProto
+import QipVerif.Model.Concat
+/-! Driver for the concatenation model (C12).  Rationals are `p/q` or `p`.
+
+* `proc w=<wave>`                                     → `ok <mode> <step> <gate_tlist> <coeffs>` | `err <kind>`
+* `idle mode=d|c start=r last=r step=r`               → `ok <tlist>` | `err <kind>`
+* `concat first=tol|struct tau=r chans=<chan>!<chan>…` → `ok <tlist>:<coeffs>!…` | `err <kind>`
+     `<chan>` = `<start>@<wave>;<start>@<wave>;…` (`-` for a channel without instruction),
+     `<wave>` = `s:<t>:<c>` | `a:<t,t,…>:<c,c,…>` | `m:<t,t,…>:<c>`
+* `compile first=.. tau=r mode=none|sched starts=r,r,… perm=i,j,… instrs=<instr>;<instr>;…`
+     `<instr>` = `<tl>@<label>=<coef>&<label>=<coef>…`, `<tl>` = `s:<t>` | `a:<t,…>`, `<coef>` = `s:<c>` | `a:<c,…>`
+     → `ok <label>:<tlist>:<coeffs>!…` | `ok none` | `err <kind>` | `unmodelled`
+-/
+open QipVerif QipVerif.Proto QipVerif.RatProto QipVerif.Concat
+
+def errName : Err → String
+  | .shape => "shape" | .index => "index" | .zerodiv => "zerodiv" | .empty => "empty" | .type => "type" | .badperm => "badperm"
+
+def wave? (s : String) : Option Wave :=
+  match s.splitOn ":" with
+  | ["s", t, c] => match rat? t, rat? c with
+    | some t, some c => some (.scalar t c)
+    | _, _ => none
+  | ["a", tl, cs] => match ratList? tl, ratList? cs with
+    | some tl, some cs => some (.arr tl cs)
+    | _, _ => none
+  | ["m", tl, c] => match ratList? tl, rat? c with
+    | some tl, some c => some (.mixed tl c)
+    | _, _ => none
+  | _ => none
+
+def chan? (s : String) : Option (List (Rat × Wave)) :=
+  if s = "-" then some [] else
+  (s.splitOn ";").mapM fun e =>
+    match e.splitOn "@" with
+    | [st, w] => match rat? st, wave? w with
+      | some st, some w => some (st, w)
+      | _, _ => none
+    | _ => none
+
+def tl? (s : String) : Option TList :=
+  match s.splitOn ":" with
+  | ["s", t] => (rat? t).map .scalar
+  | ["a", tl] => (ratList? tl).map .arr
+  | _ => none
+
+def coef? (s : String) : Option Coef :=
+  match s.splitOn ":" with
+  | ["s", t] => (rat? t).map .scalar
+  | ["a", tl] => (ratList? tl).map .arr
+  | _ => none
+
+def instr? (s : String) : Option Instr :=
+  match s.splitOn "@" with
+  | [t, ps] =>
+    match tl? t, (splitNE ps "&").mapM (fun p => match p.splitOn "=" with
+        | [l, c] => match l.toNat?, coef? c with
+          | some l, some c => some (l, c)
+          | _, _ => none
+        | _ => none) with
+    | some t, some ps => some ⟨t, ps⟩
+    | _, _ => none
+  | _ => none
+
+def first? (fs : List String) : Option Bool :=
+  match fStr? fs "first" with
+  | some "tol" => some true
+  | some "struct" => some false
+  | _ => none
+
+def showChan (r : List Rat × List Rat) : String := showRats r.1 ++ ":" ++ showRats r.2
+
+def step (line : String) : String :=
+  let fs := fields line
+  match fs.head? with
+  | some "proc" =>
+    match (fStr? fs "w").bind wave? with
+    | some w =>
+      match procPulse w with
+      | .error e => "err " ++ errName e
+      | .ok p => s!"ok {if p.mode = .discrete then "d" else "c"} {showRat p.step} {showRats p.gt} {showRats p.cs}"
+    | none => "bad-op"
+  | some "idle" =>
+    match fStr? fs "mode", fRat? fs "start", fRat? fs "last", fRat? fs "step" with
+    | some m, some st, some la, some sp =>
+      if m ≠ "d" ∧ m ≠ "c" then "bad-op" else
+      match idle (if m = "d" then .discrete else .continuous) st la sp with
+      | .error e => "err " ++ errName e
+      | .ok l => "ok " ++ showRats l
+    | _, _, _, _ => "bad-op"
+  | some "concat" =>
+    match first? fs, fRat? fs "tau", (fStr? fs "chans").bind (fun s => (s.splitOn "!").mapM chan?) with
+    | some bt, some τ, some chans =>
+      match concatenate bt τ chans with
+      | .error e => "err " ++ errName e
+      | .ok outs => "ok " ++ "!".intercalate (outs.map showChan)
+    | _, _, _ => if fStr? fs "chans" = none then
+        (match first? fs, fRat? fs "tau" with
+          | some bt, some τ => match concatenate bt τ [] with
+            | .error e => "err " ++ errName e
+            | .ok outs => "ok " ++ "!".intercalate (outs.map showChan)
+          | _, _ => "bad-op") else "bad-op"
+  | some "compile" =>
+    match first? fs, fRat? fs "tau", fStr? fs "mode", (fStr? fs "instrs").bind (fun s => (s.splitOn ";").mapM instr?) with
+    | some bt, some τ, some mode, some instrs =>
+      let sch : Option (Option (List Rat × List Nat)) :=
+        if mode = "none" then some none
+        else if mode = "sched" then
+          match fRats? fs "starts", fNats? fs "perm" with
+          | some st, some pm => some (some (st, pm))
+          | _, _ => none
+        else none
+      match sch with
+      | none => "bad-op"
+      | some sch =>
+        match compile bt τ instrs sch with
+        | none => "unmodelled"
+        | some (.error e) => "err " ++ errName e
+        | some (.ok none) => "ok none"
+        | some (.ok (some outs)) =>
+          "ok " ++ "!".intercalate (outs.map fun o => toString o.1 ++ ":" ++ showChan o.2)
+    | _, _, _, _ => "bad-op"
+  | _ => "bad-op"
+
 def main : IO Unit := serve step
